@@ -125,6 +125,13 @@ obj_misalign(unsigned al)
         return (unsigned) ((r % (64 / al)) * al);
 }
 
+/* hidden-seed dependent coin: does the caller re-initialise an object in place (live storage) or use fresh storage? */
+int
+obj_reuse(void)
+{
+        return (int) (splitmix64(((uint64_t) (uint32_t) vc_hidden_seed << 24) ^ 0x2E05E ^ (++obj_counter * 0x9E3779B97F4A7C15ull)) & 1);
+}
+
 int
 gbuf_alloc_obj(gbuf *g, size_t len, unsigned al)
 {
